@@ -144,10 +144,24 @@ Definition comp_cmp (v1 v2 : str) : res comparison :=
        | Err e, _ => Err e
        | _, Err e => Err e
        end.
-Fixpoint comps_cmp (l1 l2 : list str) : res comparison :=   (* the zip loop, then the lengths *)
+Fixpoint comps_rest (l1 l2 : list str) : res comparison :=   (* the zip loop after the first pair, then the lengths *)
   match l1, l2 with
   | x :: r1, y :: r2 => match comp_cmp x y with
-                        | Ok Eq => comps_cmp r1 r2
+                        | Ok Eq => comps_rest r1 r2
+                        | o => o
+                        end
+  | [], [] => Ok Eq
+  | [], _ :: _ => Ok Lt
+  | _ :: _, [] => Ok Gt
+  end.
+(* the first pair of components (i == 0): always compared as integers *)
+Definition first_cmp (v1 v2 : str) : res comparison :=
+  if eqs v1 v2 then Ok Eq
+  else if isdigit v1 && isdigit v2 then Ok (N.compare (int_of_digits v1) (int_of_digits v2)) else Err EValue.
+Definition comps_cmp (l1 l2 : list str) : res comparison :=
+  match l1, l2 with
+  | x :: r1, y :: r2 => match first_cmp x y with
+                        | Ok Eq => comps_rest r1 r2
                         | o => o
                         end
   | [], [] => Ok Eq
@@ -251,6 +265,7 @@ Fixpoint mapM_opt {A B} (f : A -> option B) (l : list A) : option (list B) :=
   | x :: r => match f x, mapM_opt f r with Some y, Some ys => Some (y :: ys) | _, _ => None end
   end.
 Definition canon_comp (c : str) : str := match c with x :: _ => if eqc x c_zero then rstrip0 c else c | [] => c end.
+Definition canon_first (c : str) : str := match lstrip_set [c_zero] c with [] => [c_zero] | t => t end.
 Record gkey := { k_comps : list str; k_letter : option ascii; k_suffixes : list (str * N); k_rev : N }.
 Definition canonical_key (s : str) : res gkey :=
   let '(ver, rv) := parse_version_and_revision s in
@@ -265,7 +280,8 @@ Definition canonical_key (s : str) : res gkey :=
     | [] => (comps, None)
     end in
   match mapM_opt (fun p => match parse_suffix_in suffix_order p with Some (n, ds) => Some (n, int_of_digits ds) | None => None end) (tl parts) with
-  | Some sfx => Ok {| k_comps := map canon_comp comps; k_letter := letter; k_suffixes := sfx; k_rev := rv |}
+  | Some sfx => Ok {| k_comps := match comps with c0 :: rest => canon_first c0 :: map canon_comp rest | [] => [] end;
+                      k_letter := letter; k_suffixes := sfx; k_rev := rv |}
   | None => Err EAttr
   end.
 
